@@ -42,8 +42,8 @@ struct Base {
 fn bases() -> Vec<Base> {
     let mut v = Vec::new();
     for method in ["GET", "PUT"] {
-        for path in ["/bkt/a", "/bkt/a%20b", "/bkt/a%2Bb", "/bkt/a/b", "/bkt/%C3%A9", "/bkt/a%3Fb%23c%25d"] {
-            for query in ["", "a=1", "response-content-type=text%2Fplain", "versionId=v1&a=%20+"] {
+        for path in ["/bkt/a", "/bkt/a%20b", "/bkt/a%2Bb", "/bkt/a/b", "/bkt/%C3%A9", "/bkt/a%3Fb%23c%25d", "/bkt/a%2520b"] {
+            for query in ["", "a=1", "response-content-type=text%2Fplain", "versionId=v1&a=%20+", "k=%2541"] {
                 for meta in [false, true] {
                     for h2 in [false, true] {
                         if h2 && (meta || !query.is_empty()) {
@@ -113,6 +113,7 @@ enum Mutn {
     SignedHeaderValue,
     SignedHeaderRemoved,
     SigDigit(usize),
+    SigLength(usize),
     ProviderSecret,
     CredField(usize),
     EqParamOrderReversed,
@@ -135,6 +136,7 @@ impl Mutn {
             Mutn::SignedHeaderValue => "signed-header-value".into(),
             Mutn::SignedHeaderRemoved => "signed-header-removed".into(),
             Mutn::SigDigit(_) => "signature-digit".into(),
+            Mutn::SigLength(_) => "signature-length".into(),
             Mutn::ProviderSecret => "provider-secret".into(),
             Mutn::CredField(i) => format!("credential-field-{i}"),
             Mutn::EqParamOrderReversed => "equiv:param-order".into(),
@@ -159,6 +161,9 @@ fn mutations(r: &Req, b: &Base) -> Vec<Mutn> {
     }
     for i in 0..64 {
         m.push(Mutn::SigDigit(i));
+    }
+    for keep in [0usize, 1, 2, 32, 63, 65] {
+        m.push(Mutn::SigLength(keep));
     }
     m.push(Mutn::ProviderSecret);
     for i in 0..5 {
@@ -258,6 +263,13 @@ fn apply(mu: &Mutn, r: &mut Req, keys: &mut Vec<(String, String)>) -> bool {
             let mut s = p[idx]["X-Amz-Signature=".len()..].as_bytes().to_vec();
             s[*i] = if s[*i] == b'0' { b'1' } else { b'0' };
             p[idx] = format!("X-Amz-Signature={}", String::from_utf8(s).unwrap());
+            set_q(r, &p);
+        }
+        Mutn::SigLength(keep) => {
+            let idx = p.iter().position(|x| x.starts_with("X-Amz-Signature=")).unwrap();
+            let sg = p[idx]["X-Amz-Signature=".len()..].to_owned();
+            let t = if *keep <= 64 { sg[..*keep].to_owned() } else { format!("{sg}0") };
+            p[idx] = format!("X-Amz-Signature={t}");
             set_q(r, &p);
         }
         Mutn::ProviderSecret => {
@@ -414,7 +426,7 @@ pub fn run(ctx: &Ctx) -> (Acc, Report) {
     });
     let rep = Report {
         level: "exploration",
-        rule: format!("{n_bases} presignable requests (GET/PUT x 6 keys x 4 extra-query shapes x signed headers {{host, host+meta}} x HTTP/1.1|2) x 14 X-Amz-Expires spellings x server-clock instants at signing time + {{-901,-900,-899,-1,0,1,E-1,E,E+1}} s and +-1 ms around both window edges; plus, inside the window, every single mutation/removal/duplication/case change of every query parameter, each signature digit, each credential field, method, each path byte, signed header value/removal, provider secret, and 2 equivalent rewrites. Oracle: reference verifier at the same instant. All judged cases are non-trivial; distinct by id."),
+        rule: format!("{n_bases} presignable requests (GET/PUT x 7 keys (incl. a key that contains an escape-shaped text) x 5 extra-query shapes x signed headers {{host, host+meta}} x HTTP/1.1|2) x 14 X-Amz-Expires spellings x server-clock instants at signing time + {{-901,-900,-899,-1,0,1,E-1,E,E+1}} s and +-1 ms around both window edges; plus, inside the window, every single mutation/removal/duplication/case change of every query parameter, each signature digit, each credential field, method, each path byte, signed header value/removal, provider secret, and 2 equivalent rewrites. Oracle: reference verifier at the same instant. All judged cases are non-trivial; distinct by id."),
         exhaustive: true,
         extra: json!({"base_requests": n_bases}),
         assumptions: vec![
